@@ -1,6 +1,7 @@
 package schema
 
 import (
+	"fmt"
 	"go/ast"
 	"go/token"
 	"go/types"
@@ -521,4 +522,26 @@ func (x *decoX) decsBlock(s *ast.IfStmt, g gctx) bool {
 		}
 	}
 	return true
+}
+
+// ExtractDecorateSelector extracts decorateSelectorExpr as a pseudo case (n = the selector).
+func ExtractDecorateSelector(c *Ctx) (*Case, error) {
+	fd := load.FuncDecl(c.Pkg, "fileDecorator", "decorateSelectorExpr")
+	if fd == nil || fd.Body == nil {
+		return nil, fmt.Errorf("decorateSelectorExpr not found")
+	}
+	var nobj types.Object
+	for _, p := range fd.Type.Params.List {
+		for _, nm := range p.Names {
+			if nm.Name == "n" {
+				nobj = c.Info.Defs[nm]
+			}
+		}
+	}
+	if nobj == nil {
+		return nil, fmt.Errorf("decorateSelectorExpr: no parameter n")
+	}
+	x := &decoX{c: c, n: nobj, recv: c.recvObj(fd)}
+	x.stmts(fd.Body.List, gctx{}, nil, nil, "")
+	return &Case{Type: "SelectorExpr→Ident", Events: x.evs, Pos: fd.Pos(), NObj: nobj}, nil
 }
